@@ -221,7 +221,21 @@ EXTRA = {
     "C19": " Wave 6: families with variadic overloads; the independent matcher checks every trailing argument against the tail pattern under the bindings made by the fixed parameters (match / no-match / winner / output type; the relative rank of variadic overloads is not asserted).",
     "C20": " Wave 6: a recorded top-level set / dictionary whose first tick carries no element must become valid in the same cycle when replayed and when re-applied through apply_delta.",
 }
+EXTRA7 = {
+    "C05": " Wave 7: whole-set writes also follow element-wise mutations of the same cycle.",
+    "C07": " Wave 7: in the shared-context stage the buffer is also read from the context's state after the copy-back.",
+    "C10": " Wave 7: map_ over a dictionary that arrives through a re-pointed reference (if_then_else(c, dA, dB)), stateless function, full value compared at every cycle.",
+    "C11": " Wave 7: a live, ticking time-series zero; a keyed reduce (dictionary elements, key-wise-sum combiner).",
+    "C12": " Wave 7: branch nodes log their inputs (modified <=> last_modified_time == now, modified => valid); the first boundary input of a branch node may be passive.",
+    "C13": " Wave 7: a SIGNAL-typed consumer of the reference beside the value consumers.",
+    "C14": " Wave 7: a start fault in ONE child of a map_'s first generation.",
+    "C15": " Wave 7: exception messages may run over several lines; the error text is compared exactly.",
+    "C19": " Wave 7: dynamic (unsized) lists among the arguments, the size-0 wildcard.",
+    "C20": " Wave 7: the recording is also handed to the replay as a whole-Value copy of the buffer.",
+}
 for _k, _v in EXTRA.items():
+    CLAIMED[_k]["text"] += _v
+for _k, _v in EXTRA7.items():
     CLAIMED[_k]["text"] += _v
 
 def main():
